@@ -87,16 +87,27 @@ theorem Rel.env {ctx σ stack s} (h : Rel σ stack s) : EnvRel ctx σ.heap stack
 theorem relBinds_oof_mono : ∀ (binds : List (Target × Expr)) (b : Nat) (a : Aux), a.oof = true →
     (relBinds binds b a).2.oof = true
   | [], b, a, h => by simp [relBinds, h]
-  | (.var x, e) :: rest, b, a, h => by
+  | (t, e) :: rest, b, a, h => by
     simp only [relBinds]; exact relBinds_oof_mono rest _ _ (relExpr_oof_mono e b a h)
-  | (.tuple _, _) :: _, b, a, h => by simp [relBinds]
+
+theorem relFilters_oof_mono : ∀ (fs : List FilterApp) (b : Nat) (a : Aux), a.oof = true →
+    (relFilters fs b a).2.oof = true
+  | [], b, a, h => by simp [relFilters, h]
+  | (name, args) :: rest, b, a, h => by
+    simp only [relFilters]
+    exact relFilters_oof_mono rest _ _ (by simp [relArgs_oof_mono args b a h])
+
+theorem relForIter_oof_mono (t : Target) (iter : Expr) (flt : Option Expr) (b : Nat) (a : Aux)
+    (h : a.oof = true) : (relForIter t iter flt b a).2.oof = true := by
+  cases flt with
+  | none => exact relExpr_oof_mono iter b a h
+  | some c => simp only [relForIter]; exact relExpr_oof_mono c _ _ (relExpr_oof_mono iter _ a h)
 
 mutual
 theorem relStmt_oof_mono : ∀ (st : Stmt) (b : Nat) (a : Aux), a.oof = true → (relStmt st b a).2.oof = true
   | .text t, b, a, h => by simp [relStmt, h]
   | .emit e, b, a, h => by simp [relStmt, relExpr_oof_mono e b a h]
-  | .set (.var x) e, b, a, h => by simp [relStmt, relExpr_oof_mono e b a h]
-  | .set (.tuple _) _, b, a, h => by simp [relStmt]
+  | .set t e, b, a, h => by simp [relStmt, relExpr_oof_mono e b a h]
   | .ifS c t [], b, a, h => by
     simp only [relStmt]; exact relBlock_oof_mono t _ _ (relExpr_oof_mono c b a h)
   | .ifS c t (f :: fs), b, a, h => by
@@ -104,13 +115,15 @@ theorem relStmt_oof_mono : ∀ (st : Stmt) (b : Nat) (a : Aux), a.oof = true →
     exact relBlock_oof_mono (f :: fs) _ _ (relBlock_oof_mono t _ _ (relExpr_oof_mono c b a h))
   | .withS binds body, b, a, h => by
     simp only [relStmt]; exact relBlock_oof_mono body _ _ (relBinds_oof_mono binds _ a h)
-  | .forS (.var x) iter none body [], b, a, h => by
-    simp only [relStmt]; exact relBlock_oof_mono body _ _ (relExpr_oof_mono iter b a h)
-  | .forS (.tuple _) _ _ _ _, b, a, h => by simp [relStmt]
-  | .forS (.var _) _ (some _) _ _, b, a, h => by simp [relStmt]
-  | .forS (.var _) _ none _ (_ :: _), b, a, h => by simp [relStmt]
-  | .setBlock .., b, a, h => by simp [relStmt]
-  | .filterBlock .., b, a, h => by simp [relStmt]
+  | .forS t iter flt body [], b, a, h => by
+    simp only [relStmt]; exact relBlock_oof_mono body _ _ (relForIter_oof_mono t iter flt b a h)
+  | .forS t iter flt body (e0 :: es), b, a, h => by
+    simp only [relStmt]
+    exact relBlock_oof_mono (e0 :: es) _ _ (relBlock_oof_mono body _ _ (relForIter_oof_mono t iter flt b a h))
+  | .setBlock x fs body, b, a, h => by
+    simp only [relStmt]; exact relFilters_oof_mono fs _ _ (relBlock_oof_mono body _ a h)
+  | .filterBlock fs body, b, a, h => by
+    simp only [relStmt]; exact relFilters_oof_mono fs _ _ (relBlock_oof_mono body _ a h)
   | .macroS .., b, a, h => by simp [relStmt]
   | .callBlock .., b, a, h => by simp [relStmt]
   | .breakS, b, a, h => by simp [relStmt]
@@ -131,7 +144,11 @@ theorem oof_false_of_relBinds {bs b a} (h : (relBinds bs b a).2.oof = false) : a
   | false => rfl
   | true => rw [relBinds_oof_mono bs b a ha] at h; cases h
 
-/-- the VM's `StoreLocal x` against `set x` into the innermost cell -/
+theorem oof_false_of_relFilters {fs b a} (h : (relFilters fs b a).2.oof = false) : a.oof = false := by
+  cases ha : a.oof with
+  | false => rfl
+  | true => rw [relFilters_oof_mono fs b a ha] at h; cases h
+
 theorem Rel.store {σ : State} {cell : Nat} {rs : List Nat} {s : VmState} (h : Rel σ (cell :: rs) s)
     (x : String) (v : Val) (s' : VmState) (hf : s'.frames = storeLocal x v s.frames) (ho : s'.outs = s.outs) :
     Rel { σ with heap := heapSet σ.heap cell x v } (cell :: rs) s' := by
@@ -179,13 +196,116 @@ theorem Rel.push {σ : State} {stack : List Nat} {s : VmState} (h : Rel σ stack
     have := h.bound _ hmem; omega
 
 
-/-- what executing the code of a statement (block) achieves: the VM arrives behind the code, the
-operand stack is as before, the relation holds for the new state of the reference semantics, and
-the frame stack has the same shape (only the locals of the innermost frame may differ) -/
+
+theorem heapSetAll_append (h : Heap) (c : Nat) (b1 b2 : List (String × Val)) :
+    heapSetAll h c (b1 ++ b2) = heapSetAll (heapSetAll h c b1) c b2 := by
+  induction b1 generalizing h with
+  | nil => rfl
+  | cons p rest ih => obtain ⟨x, v⟩ := p; simp [heapSetAll, ih]
+
+theorem bindTargets_length : ∀ (ts : List Target) (vs : List Val) (bs), bindTargets ts vs = .ok bs →
+    vs.length = ts.length
+  | [], [], _, _ => rfl
+  | [], _ :: _, _, h => by simp [bindTargets] at h
+  | _ :: _, [], _, h => by simp [bindTargets] at h
+  | t :: ts, v :: vs, bs, h => by
+    simp only [bindTargets] at h
+    split at h
+    · split at h
+      · rename_i bs' hbs; simp [bindTargets_length ts vs bs' hbs]
+      · simp at h
+    · simp at h
+
+/-- change only pc / operand stack of the VM state -/
+theorem Rel.same {σ stack s} (h : Rel σ stack s) (s' : VmState) (hf : s'.frames = s.frames) (ho : s'.outs = s.outs) :
+    Rel σ stack s' :=
+  ⟨by rw [hf]; exact h.frames, by rw [ho]; exact h.out, h.bound, h.nodup, h.nonempty⟩
+
+/-- what executing a piece of code achieves on the VM side, relative to the reference state `σ'` -/
 def Done (ctx : Scope) (C : List Instr) (stack : List Nat) (σ' : State) (s : VmState) (endPc : Nat) : Prop :=
   ∃ s', Reach ctx C s s' ∧ s'.pc = endPc ∧ s'.stack = s.stack ∧ Rel σ' stack s' ∧
     s'.outs.tail = s.outs.tail ∧ s'.frames.tail = s.frames.tail ∧
     s'.frames.head?.map (·.loop) = s.frames.head?.map (·.loop)
+
+/-- the same, when the code consumes the top of the operand stack (`v :: st` before, `st` after) -/
+def Stored (ctx : Scope) (C : List Instr) (stack : List Nat) (σ' : State) (s : VmState) (st : List Val)
+    (endPc : Nat) : Prop :=
+  ∃ s', Reach ctx C s s' ∧ s'.pc = endPc ∧ s'.stack = st ∧ Rel σ' stack s' ∧
+    s'.outs = s.outs ∧ s'.frames.tail = s.frames.tail ∧
+    s'.frames.head?.map (·.loop) = s.frames.head?.map (·.loop)
+
+theorem storeLocal_tail (x : String) (v : Val) (fs : List Frame) : (storeLocal x v fs).tail = fs.tail := by
+  cases fs <;> rfl
+
+theorem storeLocal_headLoop (x : String) (v : Val) (fs : List Frame) :
+    (storeLocal x v fs).head?.map (·.loop) = fs.head?.map (·.loop) := by
+  cases fs <;> rfl
+
+mutual
+/-- `compile_assignment` against `bindTarget`: the value on top of the operand stack is stored /
+unpacked into the innermost frame exactly as the reference semantics writes the innermost cell -/
+theorem sim_target : ∀ (t : Target) (v : Val) (bs : List (String × Val)), bindTarget t v = .ok bs →
+    ∀ (ctx : Scope) (C : List Instr) (base : Nat) (s : VmState) (st : List Val) (σ : State) (cell : Nat) (rs : List Nat),
+      At C base (relTarget t) → s.pc = base → s.stack = v :: st → Rel σ (cell :: rs) s →
+      Stored ctx C (cell :: rs) { σ with heap := heapSetAll σ.heap cell bs } s st (base + (relTarget t).length)
+  | .var x, v, bs, hb, ctx, C, base, s, st, σ, cell, rs, hAt, hpc, hst, hrel => by
+    simp [bindTarget] at hb; subst hb
+    simp only [relTarget] at hAt ⊢
+    refine ⟨{ s with pc := base + 1, stack := st, frames := storeLocal x v s.frames },
+      Reach.one (i := .storeLocal x) (by rw [hpc]; exact hAt.head) (by simp [MJ.Vm.step, hst, hpc]),
+      rfl, rfl, ?_, rfl, storeLocal_tail _ _ _, storeLocal_headLoop _ _ _⟩
+    simpa [heapSetAll] using hrel.store x v { s with pc := base + 1, stack := st, frames := storeLocal x v s.frames } rfl rfl
+  | .tuple ts, v, bs, hb, ctx, C, base, s, st, σ, cell, rs, hAt, hpc, hst, hrel => by
+    simp only [relTarget] at hAt ⊢
+    -- the items that are unpacked
+    have hitems : ∃ xs, bindTargets ts xs = .ok bs ∧
+        MJ.Vm.step ctx (.unpackList ts.length) s = .ok { s with pc := s.pc + 1, stack := xs ++ st } := by
+      cases v
+      case list xs =>
+        simp only [bindTarget] at hb
+        refine ⟨xs, hb, ?_⟩
+        simp [MJ.Vm.step, hst, bindTargets_length ts xs bs hb]
+      case map kvs =>
+        simp only [bindTarget] at hb
+        refine ⟨_, hb, ?_⟩
+        have := bindTargets_length ts _ bs hb
+        simp [MJ.Vm.step, hst] at this ⊢
+        simp [this]
+      all_goals simp [bindTarget] at hb
+    obtain ⟨xs, hbs, hstep⟩ := hitems
+    have r1 : Reach ctx C s { s with pc := s.pc + 1, stack := xs ++ st } :=
+      Reach.one (i := .unpackList ts.length) (by rw [hpc]; exact hAt.head) hstep
+    obtain ⟨s2, r2, hpc2, hst2, hrel2, hout2, htl2, hhd2⟩ :=
+      sim_targets ts xs bs hbs ctx C (base + 1) { s with pc := s.pc + 1, stack := xs ++ st } st σ cell rs
+        hAt.tail (by simp [hpc]) rfl (hrel.same _ rfl rfl)
+    exact ⟨s2, r1.trans r2, by simp [hpc2, Nat.add_assoc, Nat.add_comm], hst2, hrel2, hout2, htl2, hhd2⟩
+theorem sim_targets : ∀ (ts : List Target) (vs : List Val) (bs : List (String × Val)), bindTargets ts vs = .ok bs →
+    ∀ (ctx : Scope) (C : List Instr) (base : Nat) (s : VmState) (st : List Val) (σ : State) (cell : Nat) (rs : List Nat),
+      At C base (relTargets ts) → s.pc = base → s.stack = vs ++ st → Rel σ (cell :: rs) s →
+      Stored ctx C (cell :: rs) { σ with heap := heapSetAll σ.heap cell bs } s st (base + (relTargets ts).length)
+  | [], [], bs, hb, ctx, C, base, s, st, σ, cell, rs, hAt, hpc, hst, hrel => by
+    simp [bindTargets] at hb; subst hb
+    exact ⟨s, Reach.refl _, by simp [relTargets, hpc], by simpa using hst, by simpa [heapSetAll] using hrel, rfl, rfl, rfl⟩
+  | [], _ :: _, bs, hb, _, _, _, _, _, _, _, _, _, _, _, _ => by simp [bindTargets] at hb
+  | _ :: _, [], bs, hb, _, _, _, _, _, _, _, _, _, _, _, _ => by simp [bindTargets] at hb
+  | t :: ts, v :: vs, bs, hb, ctx, C, base, s, st, σ, cell, rs, hAt, hpc, hst, hrel => by
+    simp only [bindTargets] at hb
+    split at hb
+    · rename_i b1 hb1
+      split at hb
+      · rename_i b2 hb2
+        simp at hb; subst hb
+        simp only [relTargets] at hAt ⊢
+        obtain ⟨s1, r1, hpc1, hst1, hrel1, hout1, htl1, hhd1⟩ :=
+          sim_target t v b1 hb1 ctx C base s (vs ++ st) σ cell rs hAt.left hpc (by simpa using hst) hrel
+        obtain ⟨s2, r2, hpc2, hst2, hrel2, hout2, htl2, hhd2⟩ :=
+          sim_targets ts vs b2 hb2 ctx C (base + (relTarget t).length) s1 st _ cell rs hAt.right hpc1 hst1 hrel1
+        refine ⟨s2, r1.trans r2, by simp [hpc2, Nat.add_assoc], hst2, ?_, hout2.trans hout1, htl2.trans htl1, hhd2.trans hhd1⟩
+        simpa [heapSetAll_append] using hrel2
+      · simp at hb
+    · simp at hb
+end
+
 
 def SimStmt (n : Nat) : Prop :=
   ∀ st ctx stack σ σ' fl, exec n ctx stack σ st = .ok (σ', fl) → simpleStmt st = true →
@@ -203,26 +323,22 @@ def SimBinds (n : Nat) : Prop :=
       Rel { heap := heap, out := out } stack s →
       Done ctx C stack { heap := heap', out := out } s (base + (relBinds binds base a).1.length)
 
-theorem storeLocal_tail (x : String) (v : Val) (fs : List Frame) : (storeLocal x v fs).tail = fs.tail := by
-  cases fs <;> rfl
-
-theorem storeLocal_headLoop (x : String) (v : Val) (fs : List Frame) :
-    (storeLocal x v fs).head?.map (·.loop) = fs.head?.map (·.loop) := by
-  cases fs <;> rfl
-
 theorem Done.refl {ctx C stack σ s} (h : Rel σ stack s) : Done ctx C stack σ s s.pc :=
   ⟨s, Reach.refl _, rfl, rfl, h, rfl, rfl, rfl⟩
 
-/-- evaluate `e`, then `StoreLocal x`: the code of `set x = e` and of one `with` binding -/
-theorem sim_assign {n ctx cell rs σ e v x} (hv : evalExpr n ctx σ.heap (cell :: rs) e = .ok v)
-    (hse : simpleExpr e = true) {C base a s}
-    (hAt : At C base ((relExpr e base a).1 ++ [.storeLocal x])) (hoof : (relExpr e base a).2.oof = false)
+/-- evaluate `e`, then assign to the target: `set t = e` and one `with` binding -/
+theorem sim_assign {n ctx cell rs σ e v t bs} (hv : evalExpr n ctx σ.heap (cell :: rs) e = .ok v)
+    (hb : bindTarget t v = .ok bs) (hse : simpleExpr e = true) {C base a s}
+    (hAt : At C base ((relExpr e base a).1 ++ relTarget t)) (hoof : (relExpr e base a).2.oof = false)
     (hpc : s.pc = base) (hrel : Rel σ (cell :: rs) s) :
-    Done ctx C (cell :: rs) { σ with heap := heapSet σ.heap cell x v } s (base + (relExpr e base a).1.length + 1) := by
+    Done ctx C (cell :: rs) { σ with heap := heapSetAll σ.heap cell bs } s
+      (base + (relExpr e base a).1.length + (relTarget t).length) := by
   have r1 := relExpr_correct hv hse hAt.left hoof hpc hrel.env
-  refine ⟨{ s with pc := base + (relExpr e base a).1.length + 1, frames := storeLocal x v s.frames },
-    r1.trans (Reach.one' (i := .storeLocal x) _ hAt.right.head rfl (by simp [MJ.Vm.step])),
-    rfl, rfl, hrel.store x v _ rfl rfl, rfl, storeLocal_tail _ _ _, storeLocal_headLoop _ _ _⟩
+  obtain ⟨s2, r2, hpc2, hst2, hrel2, hout2, htl2, hhd2⟩ :=
+    sim_target t v bs hb ctx C (base + (relExpr e base a).1.length)
+      { s with pc := base + (relExpr e base a).1.length, stack := v :: s.stack } s.stack σ cell rs
+      hAt.right rfl rfl (hrel.same _ rfl rfl)
+  exact ⟨s2, r1.trans r2, hpc2, hst2, hrel2, by rw [hout2], htl2, hhd2⟩
 
 theorem sim_binds_step {n} (ihW : SimBinds n) : SimBinds (n + 1) := by
   intro binds ctx stack heap heap' out hev hs C base a s hAt hoof hpc hrel
@@ -233,25 +349,26 @@ theorem sim_binds_step {n} (ihW : SimBinds n) : SimBinds (n + 1) := by
     rw [← hpc]; exact Done.refl hrel
   | cons b rest =>
     obtain ⟨t, e⟩ := b
-    cases t with
-    | tuple ts => simp [simpleBinds] at hs
-    | var x =>
-      have hs' : simpleExpr e = true ∧ simpleBinds rest = true := by simpa [simpleBinds] using hs
-      obtain ⟨cell, rs, hstack⟩ := hrel.nonempty
-      subst hstack
-      simp only [bindWith, topCell] at hev
+    have hs' : simpleExpr e = true ∧ simpleBinds rest = true := by simpa [simpleBinds] using hs
+    obtain ⟨cell, rs, hstack⟩ := hrel.nonempty
+    subst hstack
+    simp only [bindWith, topCell] at hev
+    split at hev
+    · simp at hev
+    · rename_i v hv
       split at hev
       · simp at hev
-      · rename_i v hv
-        simp only [bindTarget, heapSetAll] at hev
+      · rename_i bs hbs
         simp only [relBinds] at hAt hoof ⊢
         have ho1 := oof_false_of_relBinds hoof
         obtain ⟨s1, r1, hpc1, hst1, hrel1, hout1, htl1, hhd1⟩ :=
-          sim_assign (σ := { heap := heap, out := out }) hv hs'.1 hAt.left ho1 hpc hrel
+          sim_assign (σ := { heap := heap, out := out }) hv hbs hs'.1 hAt.left ho1 hpc hrel
         obtain ⟨s2, r2, hpc2, hst2, hrel2, hout2, htl2, hhd2⟩ :=
-          ihW rest ctx (cell :: rs) _ heap' out hev hs'.2 C (base + (relExpr e base a).1.length + 1) (relExpr e base a).2 s1
+          ihW rest ctx (cell :: rs) _ heap' out hev hs'.2 C
+            (base + (relExpr e base a).1.length + (relTarget t).length) (relExpr e base a).2 s1
             (At.cast hAt.right (by simp [Nat.add_assoc])) hoof hpc1 hrel1
-        exact ⟨s2, r1.trans r2, by rw [hpc2]; simp only [List.length_append, List.length_cons, List.length_nil]; omega, hst2.trans hst1, hrel2,
+        exact ⟨s2, r1.trans r2,
+          by rw [hpc2]; simp only [List.length_append]; omega, hst2.trans hst1, hrel2,
           hout2.trans hout1, htl2.trans htl1, hhd2.trans hhd1⟩
 
 theorem sim_block_step {n} (ihS : SimStmt n) (ihB : SimBlock n) : SimBlock (n + 1) := by
@@ -281,7 +398,6 @@ theorem sim_block_step {n} (ihS : SimStmt n) (ihB : SimBlock n) : SimBlock (n + 
       have := (ihS st ctx stack σ σ1 fl1 h1 hs'.1 C base a s hAt.left ho1 hpc hrel).1
       exact absurd this (by intro h; exact hne h)
 
-
 theorem Rel.appendOut {σ stack s} (h : Rel σ stack s) (t : String) (s' : VmState)
     (hf : s'.frames = s.frames) (ho : s'.outs = MJ.Vm.appendOut t s.outs) :
     Rel { σ with out := σ.out ++ t } stack s' ∧ s'.outs.tail = s.outs.tail := by
@@ -289,101 +405,389 @@ theorem Rel.appendOut {σ stack s} (h : Rel σ stack s) (t : String) (s' : VmSta
   refine ⟨⟨by rw [hf]; exact h.frames, ⟨rest, by rw [ho, hr]; rfl⟩, h.bound, h.nodup, h.nonempty⟩, ?_⟩
   rw [ho, hr]; rfl
 
-/-- change only pc / operand stack of the VM state -/
-theorem Rel.same {σ stack s} (h : Rel σ stack s) (s' : VmState) (hf : s'.frames = s.frames) (ho : s'.outs = s.outs) :
-    Rel σ stack s' :=
-  ⟨by rw [hf]; exact h.frames, by rw [ho]; exact h.out, h.bound, h.nodup, h.nonempty⟩
+/-- a chain of block filters applied to the value on top of the operand stack -/
+def SimFilters (n : Nat) : Prop :=
+  ∀ fs ctx heap stack v v', applyFilters n ctx heap stack v fs = .ok v' → simpleFilters fs = true →
+    ∀ C base a (s : VmState) (st : List Val), At C base (relFilters fs base a).1 → (relFilters fs base a).2.oof = false →
+      s.pc = base → s.stack = v :: st → EnvRel ctx heap stack s.frames →
+      Reach ctx C s { s with pc := base + (relFilters fs base a).1.length, stack := v' :: st }
 
-/-- the iterations of a `for x in …` loop: the VM is at the `Iterate` instruction -/
+theorem sim_filters_step {n} (ihF : SimFilters n) : SimFilters (n + 1) := by
+  intro fs ctx heap stack v v' hev hs C base a s st hAt hoof hpc hst henv
+  cases fs with
+  | nil =>
+    simp [applyFilters] at hev; subst hev
+    simp only [relFilters, List.length_nil, Nat.add_zero]
+    exact (Reach.refl s).cast rfl (by cases s; simp_all)
+  | cons f rest =>
+    obtain ⟨name, args⟩ := f
+    have hs' : simpleArgs args = true ∧ simpleFilters rest = true := by simpa [simpleFilters] using hs
+    simp only [applyFilters, bind, Except.bind] at hev
+    split at hev
+    · simp at hev
+    · rename_i as has
+      have hkeys := evalArgs_keys args as has hs'.1
+      have hsplit := splitArgs_none as hkeys
+      rw [hsplit.2, hsplit.1] at hev
+      simp only at hev
+      split at hev
+      · simp at hev
+      · rename_i v1 hv1
+        simp only [relFilters] at hAt hoof ⊢
+        have hoA : (relArgs args base a).2.oof = false := by
+          have := oof_false_of_relFilters hoof; simpa using this
+        have r1 := (sim_all n).2.2.1 args ctx heap stack as has hs'.1 C base a s hAt.left.left hoA hpc henv
+        have hlen : 1 + args.length = (v :: as.map (·.2)).length := by
+          simp [evalArgs_length args as has]; omega
+        have hpop : popN (1 + args.length) ((as.map (·.2)).reverse ++ v :: st) = some (v :: as.map (·.2), st) := by
+          rw [hlen]
+          have := popN_append (v :: as.map (·.2)) st
+          simpa using this
+        have r2 : Reach ctx C { s with pc := base + (relArgs args base a).1.length, stack := (as.map (·.2)).reverse ++ s.stack }
+            { s with pc := base + (relArgs args base a).1.length + 1, stack := v1 :: st } :=
+          Reach.one' (i := .applyFilter _ _ _) _ hAt.left.right.head rfl
+            (by simp [MJ.Vm.step, hst, hpop, hv1, Except.map])
+        have r3 := ihF rest ctx heap stack v1 v' hev hs'.2 C (base + (relArgs args base a).1.length + 1)
+          ((relArgs args base a).2.filterId name).2
+          { s with pc := base + (relArgs args base a).1.length + 1, stack := v1 :: st } st
+          (At.cast hAt.right (by simp [Nat.add_assoc])) hoof rfl rfl henv
+        refine (r1.trans (r2.trans r3)).cast rfl ?_
+        simp only [List.length_append, List.length_cons, List.length_nil]
+        congr 1; omega
+
+
+/-- the iterations of a `for` loop: the VM is at the `Iterate` instruction -/
 def SimIters (n : Nat) : Prop :=
-  ∀ ctx stack σ σ' x body xs len idx prev,
-    execIters n ctx stack σ (.var x) body (xs.zip (loopInfosFrom len idx prev xs)) = .ok σ' →
-    x ≠ "loop" → simpleBlock body = true →
+  ∀ ctx stack σ σ' t body xs len idx prev,
+    execIters n ctx stack σ t body (xs.zip (loopInfosFrom len idx prev xs)) = .ok σ' →
+    simpleBlock body = true →
     ∀ C iterPc endPc a (s : VmState) (l : LoopSt) (loc : Scope) (fs : List Frame),
-      C[iterPc]? = some (.iterate endPc) → C[iterPc + 1]? = some (.storeLocal x) →
-      At C (iterPc + 2) (relBlock body (iterPc + 2) a).1 → (relBlock body (iterPc + 2) a).2.oof = false →
-      C[iterPc + 2 + (relBlock body (iterPc + 2) a).1.length]? = some (.jump iterPc) →
+      C[iterPc]? = some (.iterate endPc) → At C (iterPc + 1) (relTarget t) →
+      At C (iterPc + 1 + (relTarget t).length) (relBlock body (iterPc + 1 + (relTarget t).length) a).1 →
+      (relBlock body (iterPc + 1 + (relTarget t).length) a).2.oof = false →
+      C[iterPc + 1 + (relTarget t).length + (relBlock body (iterPc + 1 + (relTarget t).length) a).1.length]? = some (.jump iterPc) →
       s.pc = iterPc → s.frames = { locals := loc, loop := some l } :: fs →
       l.withLoopVar = true → l.len = len → l.calls = idx → l.cur = prev → l.rest = xs →
       FramesRel σ.heap stack fs → (∃ rest, s.outs = σ.out :: rest) →
       (∀ id ∈ stack, id < σ.heap.length) → stack.Nodup → (∃ c rs, stack = c :: rs) →
       ∃ s', Reach ctx C s s' ∧ s'.pc = endPc ∧ s'.stack = s.stack ∧ s'.frames.tail = fs ∧
-        (∃ rest, s'.outs = σ'.out :: rest) ∧ s'.outs.tail = s.outs.tail
+        (∃ rest, s'.outs = σ'.out :: rest) ∧ s'.outs.tail = s.outs.tail ∧
+        (∃ lf locf, s'.frames.head? = some { locals := locf, loop := some lf } ∧
+          lf.iterated = (l.iterated || !xs.isEmpty))
 
-
-theorem loop_cell_agrees (x : String) (y : Val) (l' : LoopSt) (info : LoopInfo) (hx : x ≠ "loop")
-    (hw : l'.withLoopVar = true) (hi : l'.info = info) :
-    ∀ z, assocGet z (("loop", loopVal info) :: [(x, y)]) =
-      frameLookup { locals := [(x, y)], loop := some l' } z := by
+theorem loop_cell0_agrees (l' : LoopSt) (info : LoopInfo) (hw : l'.withLoopVar = true) (hi : l'.info = info) :
+    ∀ z, assocGet z [("loop", loopVal info)] = frameLookup { locals := [], loop := some l' } z := by
   intro z
   by_cases hz : z = "loop"
-  · subst hz
-    have : ¬ (x = "loop") := hx
-    simp [assocGet, frameLookup, this, hw, hi]
-  · by_cases hzx : x = z
-    · subst hzx; simp [assocGet, frameLookup, Ne.symm hz]
-    · have h1 : ¬ ("loop" = z) := fun h => hz h.symm
-      simp [assocGet, frameLookup, hzx, h1, hw, hz]
+  · subst hz; simp [assocGet, frameLookup, hw, hi]
+  · have h1 : ¬ ("loop" = z) := fun h => hz h.symm
+    simp [assocGet, frameLookup, h1, hw, hz]
+
+theorem heapSetAll_last (h : Heap) (c : Scope) (bs : List (String × Val)) :
+    heapSetAll (h ++ [c]) h.length bs = h ++ [setAll c bs] := by
+  induction bs generalizing c with
+  | nil => rfl
+  | cons p rest ih =>
+    obtain ⟨x, v⟩ := p
+    simp only [heapSetAll, setAll]
+    have : heapSet (h ++ [c]) h.length x v = h ++ [assocSet x v c] := by
+      simp [heapSet]
+    rw [this, ih]
 
 theorem sim_iters_step {n} (ihB : SimBlock n) (ihI : SimIters n) : SimIters (n + 1) := by
-  intro ctx stack σ σ' x body xs len idx prev hev hx hsb C iterPc endPc a s l loc fs hIt hSt hAt hoof hJ
+  intro ctx stack σ σ' t body xs len idx prev hev hsb C iterPc endPc a s l loc fs hIt hTg hAt hoof hJ
     hpc hfr hwl hlen hcalls hcur hrest hFR hout hbound hnodup hne
   cases xs with
   | nil =>
     simp [loopInfosFrom, execIters] at hev; subst hev
     refine ⟨{ s with pc := endPc }, Reach.one (i := .iterate endPc) (by rw [hpc]; exact hIt) ?_, rfl, rfl,
-      by simp [hfr], hout, rfl⟩
+      by simp [hfr], hout, rfl, ⟨l, loc, by simp [hfr], by simp⟩⟩
     simp [MJ.Vm.step, hfr, nextLoopItem, hrest]
   | cons y ys =>
-    simp only [loopInfosFrom, List.zip_cons_cons, execIters, bindTarget] at hev
+    simp only [loopInfosFrom, List.zip_cons_cons, execIters] at hev
     split at hev
     · simp at hev
-    · rename_i σ2 fl hbody
-      -- the two instructions before the body
-      let l' : LoopSt := { l with calls := l.calls + 1, iterated := true, prev := l.cur, cur := some y, rest := ys }
-      let s2 : VmState := { s with pc := iterPc + 2, frames := { locals := [(x, y)], loop := some l' } :: fs }
-      have hreach2 : Reach ctx C s s2 := by
-        refine Reach.cons (i := .iterate endPc) (by rw [hpc]; exact hIt)
-          (s' := { s with pc := iterPc + 1, stack := y :: s.stack, frames := { locals := [], loop := some l' } :: fs }) ?_ ?_
-        · simp [MJ.Vm.step, hfr, nextLoopItem, hrest, hpc, l']
-        · refine Reach.one (i := .storeLocal x) hSt ?_
-          simp [MJ.Vm.step, storeLocal, assocSet, s2]
-      have hinfo : l'.info = { index0 := idx, length := len, prev := prev, next := ys.head? } := by
-        simp [LoopSt.info, l', hcalls, hlen, hcur]
-      obtain ⟨c0, rs0, hstack⟩ := hne
-      have hrel0 : Rel σ stack { s with frames := fs } := ⟨hFR, hout, hbound, hnodup, ⟨c0, rs0, hstack⟩⟩
-      have hrel2 : Rel { σ with heap := σ.heap ++ [("loop", loopVal { index0 := idx, length := len, prev := prev, next := ys.head? }) :: [(x, y)]] }
-          (σ.heap.length :: stack) s2 :=
-        hrel0.push _ { locals := [(x, y)], loop := some l' } (loop_cell_agrees x y l' _ hx hwl hinfo) s2 rfl rfl
-      obtain ⟨hfl, s3, r3, hpc3, hst3, hrel3, hout3, htl3, hhd3⟩ :=
-        ihB body ctx (σ.heap.length :: stack) _ σ2 fl hbody hsb C (iterPc + 2) a s2 hAt hoof rfl hrel2
-      subst hfl
-      simp only at hev
-      -- the cell of the iteration is dropped: the heap is the one before the loop
-      have htake : σ2.heap.take σ.heap.length = σ.heap := take_of_frame _ _ _ _ (execBlock_frame hbody)
-      rw [htake] at hev
-      -- back to the `Iterate`
-      have hf3 : ∃ loc3, s3.frames = { locals := loc3, loop := some l' } :: fs := by
-        cases hf : s3.frames with
-        | nil => rw [hf] at hhd3; simp [s2] at hhd3
-        | cons f3 fs3 =>
-          rw [hf] at htl3 hhd3
-          simp [s2] at htl3 hhd3
-          exact ⟨f3.locals, by cases f3; simp_all⟩
-      obtain ⟨loc3, hf3⟩ := hf3
-      let s4 : VmState := { s3 with pc := iterPc }
-      have hreach4 : Reach ctx C s3 s4 :=
-        Reach.one' (i := .jump iterPc) _ hJ hpc3 (by simp [MJ.Vm.step, s4])
-      obtain ⟨r3out, hr3⟩ := hrel3.out
-      obtain ⟨s', r5, hpc5, hst5, htl5, hout5, houtt5⟩ :=
-        ihI ctx stack { heap := σ.heap, out := σ2.out } σ' x body ys len (idx + 1) (some y) hev hx hsb
-          C iterPc endPc a s4 l' loc3 fs hIt hSt hAt hoof hJ rfl hf3 hwl (by simp [l', hlen]) (by simp [l', hcalls])
-          (by simp [l']) (by simp [l']) hFR ⟨r3out, hr3⟩ hbound hnodup ⟨c0, rs0, hstack⟩
-      exact ⟨s', hreach2.trans (r3.trans (hreach4.trans r5)), hpc5, by rw [hst5]; exact hst3, htl5, hout5,
-        by rw [houtt5]; exact hout3⟩
+    · rename_i bs hbs
+      split at hev
+      · simp at hev
+      · rename_i σ2 fl hbody
+        let l' : LoopSt := { l with calls := l.calls + 1, iterated := true, prev := l.cur, cur := some y, rest := ys }
+        let info : LoopInfo := { index0 := idx, length := len, prev := prev, next := ys.head? }
+        -- Iterate: the item is pushed, the frame's locals are cleared
+        let s1 : VmState := { s with pc := iterPc + 1, stack := y :: s.stack, frames := { locals := [], loop := some l' } :: fs }
+        have hreach1 : Reach ctx C s s1 :=
+          Reach.one (i := .iterate endPc) (by rw [hpc]; exact hIt) (by simp [MJ.Vm.step, hfr, nextLoopItem, hrest, hpc, s1, l'])
+        have hinfo : l'.info = info := by simp [LoopSt.info, l', info, hcalls, hlen, hcur]
+        obtain ⟨c0, rs0, hstack⟩ := hne
+        have hrel0 : Rel σ stack { s with frames := fs } := ⟨hFR, hout, hbound, hnodup, ⟨c0, rs0, hstack⟩⟩
+        have hrel1 : Rel { σ with heap := σ.heap ++ [[("loop", loopVal info)]] } (σ.heap.length :: stack) s1 :=
+          hrel0.push _ { locals := [], loop := some l' } (loop_cell0_agrees l' info hwl hinfo) s1 rfl rfl
+        -- the target(s)
+        obtain ⟨s2, r2, hpc2, hst2, hrel2, hout2, htl2, hhd2⟩ :=
+          sim_target t y bs hbs ctx C (iterPc + 1) s1 s.stack _ σ.heap.length stack hTg rfl rfl hrel1
+        have hheap2 : heapSetAll (σ.heap ++ [[("loop", loopVal info)]]) σ.heap.length bs =
+            σ.heap ++ [setAll [("loop", loopVal info)] bs] := heapSetAll_last _ _ _
+        simp only [hheap2] at hrel2
+        -- the body
+        obtain ⟨hfl, s3, r3, hpc3, hst3, hrel3, hout3, htl3, hhd3⟩ :=
+          ihB body ctx (σ.heap.length :: stack) _ σ2 fl hbody hsb C (iterPc + 1 + (relTarget t).length) a s2 hAt hoof hpc2 hrel2
+        subst hfl
+        simp only at hev
+        have htake : σ2.heap.take σ.heap.length = σ.heap := take_of_frame _ _ _ _ (execBlock_frame hbody)
+        rw [htake] at hev
+        have hf3 : ∃ loc3, s3.frames = { locals := loc3, loop := some l' } :: fs := by
+          have ht : s3.frames.tail = fs := by rw [htl3, htl2]; rfl
+          have hh : s3.frames.head?.map (·.loop) = some (some l') := by rw [hhd3, hhd2]; rfl
+          cases hf : s3.frames with
+          | nil => rw [hf] at hh; simp at hh
+          | cons f3 fs3 =>
+            rw [hf] at ht hh
+            simp at ht hh
+            exact ⟨f3.locals, by cases f3; simp_all⟩
+        obtain ⟨loc3, hf3⟩ := hf3
+        let s4 : VmState := { s3 with pc := iterPc }
+        have hreach4 : Reach ctx C s3 s4 :=
+          Reach.one' (i := .jump iterPc) _ hJ hpc3 (by simp [MJ.Vm.step, s4])
+        obtain ⟨r3out, hr3⟩ := hrel3.out
+        obtain ⟨s', r5, hpc5, hst5, htl5, hout5, houtt5, lf, locf, hlf, hit⟩ :=
+          ihI ctx stack { heap := σ.heap, out := σ2.out } σ' t body ys len (idx + 1) (some y) hev hsb
+            C iterPc endPc a s4 l' loc3 fs hIt hTg hAt hoof hJ rfl hf3 hwl (by simp [l', hlen]) (by simp [l', hcalls])
+            (by simp [l']) (by simp [l']) hFR ⟨r3out, hr3⟩ hbound hnodup ⟨c0, rs0, hstack⟩
+        refine ⟨s', hreach1.trans (r2.trans (r3.trans (hreach4.trans r5))), hpc5, ?_, htl5, hout5, ?_, ⟨lf, locf, hlf, ?_⟩⟩
+        · rw [hst5]; simp [s4, hst3, hst2]
+        · rw [houtt5]; simp only [s4]; rw [hout3, hout2]
+        · simp [hit, l']
 
+theorem i128Min_nonpos : i128Min ≤ 0 := by decide
 
-theorem sim_stmt_step {n} (ihB : SimBlock n) (ihW : SimBinds n) (ihI : SimIters n) : SimStmt (n + 1) := by
+theorem chkInt_succ (k : Nat) (h : (k : Int) + 1 ≤ i128Max) : chkInt ((k : Int) + 1) = .ok (.int ((k : Int) + 1)) := by
+  have h1 : i128Min ≤ (k : Int) + 1 := by
+    have : (0 : Int) ≤ (k : Int) := Int.natCast_nonneg _
+    have := i128Min_nonpos
+    omega
+  simp [chkInt, h1, h]
+
+/-- the filter pre-pass of `for … if cond`: the VM is at the `Iterate` of the first loop, the
+operand stack holds the number of the items kept so far on top of these items -/
+theorem sim_filter_iters : ∀ (xs : List Val) (n : Nat) (ctx : Scope) (σ : State) (stack : List Nat) (t : Target)
+    (c : Expr) (kept : List Val),
+    filterItems n ctx σ.heap stack t c xs = .ok kept → simpleExpr c = true →
+    ∀ (C : List Instr) (iterPc cb p : Nat) (a : Aux) (s : VmState) (l : LoopSt) (loc : Scope) (fs : List Frame)
+      (acc st : List Val),
+      cb = iterPc + 2 + (relTarget t).length → p = cb + (relExpr c cb a).1.length →
+      C[iterPc]? = some (.iterate (p + 7)) → C[iterPc + 1]? = some .dupTop → At C (iterPc + 2) (relTarget t) →
+      At C cb (relExpr c cb a).1 → (relExpr c cb a).2.oof = false →
+      At C p [.jumpIfFalse (p + 5), .swap, .loadConst (.int 1), .add, .jump (p + 6), .discardTop, .jump iterPc] →
+      s.pc = iterPc → s.frames = { locals := loc, loop := some l } :: fs → l.withLoopVar = false → l.rest = xs →
+      s.stack = .int acc.length :: (acc.reverse ++ st) → ((acc ++ kept).length : Int) ≤ i128Max →
+      FramesRel σ.heap stack fs → (∃ rest, s.outs = σ.out :: rest) →
+      (∀ id ∈ stack, id < σ.heap.length) → stack.Nodup → (∃ c rs, stack = c :: rs) →
+      ∃ s', Reach ctx C s s' ∧ s'.pc = p + 7 ∧
+        s'.stack = .int (acc ++ kept).length :: ((acc ++ kept).reverse ++ st) ∧ s'.frames.tail = fs ∧
+        s'.outs = s.outs
+  | [], n, ctx, σ, stack, t, c, kept, hev, hsc, C, iterPc, cb, p, a, s, l, loc, fs, acc, st, hcb, hp, hIt, hDup, hTg, hAtc,
+      hoofc, hAtP, hpc, hfr, hwl, hrest, hstk, h128, hFR, hout, hbound, hnodup, hne => by
+    cases n with
+    | zero => simp [filterItems] at hev
+    | succ m =>
+      simp [filterItems] at hev; subst hev
+      refine ⟨{ s with pc := p + 7 }, Reach.one (i := .iterate (p + 7)) (by rw [hpc]; exact hIt) ?_, rfl,
+        by simpa using hstk, by simp [hfr], rfl⟩
+      simp [MJ.Vm.step, hfr, nextLoopItem, hrest]
+  | x :: xs, n, ctx, σ, stack, t, c, kept, hev, hsc, C, iterPc, cb, p, a, s, l, loc, fs, acc, st, hcb, hp, hIt, hDup, hTg, hAtc,
+      hoofc, hAtP, hpc, hfr, hwl, hrest, hstk, h128, hFR, hout, hbound, hnodup, hne => by
+    cases n with
+    | zero => simp [filterItems] at hev
+    | succ m =>
+      simp only [filterItems] at hev
+      split at hev
+      · simp at hev
+      · rename_i bs hbs
+        split at hev
+        · simp at hev
+        · rename_i cv hcv
+          split at hev
+          · simp at hev
+          · rename_i rest hrec
+            simp at hev
+            let l' : LoopSt := { l with calls := l.calls + 1, iterated := true, prev := l.cur, cur := some x, rest := xs }
+            let s1 : VmState := { s with pc := iterPc + 1, stack := x :: s.stack, frames := { locals := [], loop := some l' } :: fs }
+            have hreach1 : Reach ctx C s s1 :=
+              Reach.one (i := .iterate (p + 7)) (by rw [hpc]; exact hIt)
+                (by simp [MJ.Vm.step, hfr, nextLoopItem, hrest, hpc, s1, l'])
+            let s1' : VmState := { s1 with pc := iterPc + 2, stack := x :: x :: s.stack }
+            have hreach1' : Reach ctx C s1 s1' :=
+              Reach.one' (i := .dupTop) _ hDup rfl (by simp [MJ.Vm.step, s1, s1'])
+            obtain ⟨c0, rs0, hstack⟩ := hne
+            have hrel0 : Rel σ stack { s with frames := fs } := ⟨hFR, hout, hbound, hnodup, ⟨c0, rs0, hstack⟩⟩
+            have hrel1 : Rel { σ with heap := σ.heap ++ [[]] } (σ.heap.length :: stack) s1' :=
+              hrel0.push [] { locals := [], loop := some l' }
+                (by intro z; simp [assocGet, frameLookup, l', hwl]) s1' rfl rfl
+            obtain ⟨s2, r2, hpc2, hst2, hrel2, hout2, htl2, hhd2⟩ :=
+              sim_target t x bs hbs ctx C (iterPc + 2) s1' (x :: s.stack) _ σ.heap.length stack hTg rfl rfl hrel1
+            have hheap2 : heapSetAll (σ.heap ++ [[]]) σ.heap.length bs = σ.heap ++ [setAll [] bs] :=
+              heapSetAll_last _ _ _
+            simp only [hheap2] at hrel2
+            have hpc2' : s2.pc = cb := by rw [hpc2, hcb]
+            have r3 := relExpr_correct hcv hsc hAtc hoofc hpc2' hrel2.env
+            have hf2 : ∃ loc2, s2.frames = { locals := loc2, loop := some l' } :: fs := by
+              have ht : s2.frames.tail = fs := by rw [htl2]; rfl
+              have hh : s2.frames.head?.map (·.loop) = some (some l') := by rw [hhd2]; rfl
+              cases hf : s2.frames with
+              | nil => rw [hf] at hh; simp at hh
+              | cons f3 fs3 =>
+                rw [hf] at ht hh
+                simp at ht hh
+                exact ⟨f3.locals, by cases f3; simp_all⟩
+            obtain ⟨loc2, hf2⟩ := hf2
+            have hs2st : s2.stack = x :: .int acc.length :: (acc.reverse ++ st) := by rw [hst2, hstk]
+            by_cases htr : truthy cv = true
+            · -- the item is kept
+              simp only [htr, if_true] at hev
+              subst hev
+              have hlen : ((acc.length : Int) + 1) = ((acc ++ [x]).length : Int) := by simp
+              have hle : ((acc ++ [x]).length : Int) ≤ i128Max := by
+                have : ((acc ++ [x]).length : Int) ≤ ((acc ++ x :: rest).length : Int) := by
+                  simp only [List.length_append, List.length_cons, List.length_nil]; omega
+                exact Int.le_trans this h128
+              let s4 : VmState := { s2 with pc := p + 1 }
+              have r4 : Reach ctx C { s2 with pc := cb + (relExpr c cb a).1.length, stack := cv :: s2.stack } s4 :=
+                Reach.one' (i := .jumpIfFalse (p + 5)) _ hAtP.head (by simp [hp])
+                  (by simp [MJ.Vm.step, htr, s4, hp])
+              let s5 : VmState := { s2 with pc := p + 2, stack := .int acc.length :: x :: (acc.reverse ++ st) }
+              have r5 : Reach ctx C s4 s5 :=
+                Reach.one' (i := .swap) _ hAtP.tail.head rfl (by simp [MJ.Vm.step, s4, s5, hs2st])
+              let s6 : VmState := { s2 with pc := p + 3, stack := .int 1 :: .int acc.length :: x :: (acc.reverse ++ st) }
+              have r6 : Reach ctx C s5 s6 :=
+                Reach.one' (i := .loadConst (.int 1)) _ hAtP.tail.tail.head rfl (by simp [MJ.Vm.step, s5, s6])
+              let s7 : VmState := { s2 with pc := p + 4, stack := .int (acc ++ [x]).length :: x :: (acc.reverse ++ st) }
+              have r7 : Reach ctx C s6 s7 :=
+                Reach.one' (i := .add) _ hAtP.tail.tail.tail.head rfl
+                  (by
+                    have h2 : (acc.length : Int) + 1 ≤ i128Max := by rw [hlen]; exact hle
+                    have h3 := chkInt_succ acc.length h2
+                    simp only [MJ.Vm.step, binArith, arith, intOp, asInt?, s6]
+                    rw [h3]
+                    simp [s7, Except.map])
+              let s8 : VmState := { s7 with pc := p + 6 }
+              have r8 : Reach ctx C s7 s8 :=
+                Reach.one' (i := .jump (p + 6)) _ hAtP.tail.tail.tail.tail.head rfl (by simp [MJ.Vm.step, s7, s8])
+              let s9 : VmState := { s7 with pc := iterPc }
+              have r9 : Reach ctx C s8 s9 :=
+                Reach.one' (i := .jump iterPc) _ hAtP.tail.tail.tail.tail.tail.tail.head rfl (by simp [MJ.Vm.step, s8, s9])
+              obtain ⟨s', r10, hpc10, hst10, htl10, hout10⟩ :=
+                sim_filter_iters xs m ctx σ stack t c rest hrec hsc C iterPc cb p a s9 l' loc2 fs (acc ++ [x]) st hcb hp
+                  hIt hDup hTg hAtc hoofc hAtP rfl (by simpa [s9, s7] using hf2) hwl rfl
+                  (by simp [s9, s7]) (by simpa using h128) hFR (by simpa [s9, s7, hout2, s1', s1] using hout)
+                  hbound hnodup ⟨c0, rs0, hstack⟩
+              refine ⟨s', hreach1.trans (hreach1'.trans (r2.trans (r3.trans (r4.trans (r5.trans (r6.trans (r7.trans (r8.trans (r9.trans r10))))))))),
+                hpc10, by simpa using hst10, htl10, ?_⟩
+              rw [hout10]; simp [s9, s7, hout2, s1', s1]
+            · -- the item is dropped
+              simp only [htr] at hev
+              simp at hev
+              subst hev
+              let s4 : VmState := { s2 with pc := p + 5 }
+              have r4 : Reach ctx C { s2 with pc := cb + (relExpr c cb a).1.length, stack := cv :: s2.stack } s4 :=
+                Reach.one' (i := .jumpIfFalse (p + 5)) _ hAtP.head (by simp [hp])
+                  (by simp [MJ.Vm.step, htr, s4])
+              let s5 : VmState := { s2 with pc := p + 6, stack := .int acc.length :: (acc.reverse ++ st) }
+              have r5 : Reach ctx C s4 s5 :=
+                Reach.one' (i := .discardTop) _ hAtP.tail.tail.tail.tail.tail.head rfl (by simp [MJ.Vm.step, s4, s5, hs2st])
+              let s9 : VmState := { s5 with pc := iterPc }
+              have r9 : Reach ctx C s5 s9 :=
+                Reach.one' (i := .jump iterPc) _ hAtP.tail.tail.tail.tail.tail.tail.head rfl (by simp [MJ.Vm.step, s5, s9])
+              obtain ⟨s', r10, hpc10, hst10, htl10, hout10⟩ :=
+                sim_filter_iters xs m ctx σ stack t c rest hrec hsc C iterPc cb p a s9 l' loc2 fs acc st hcb hp
+                  hIt hDup hTg hAtc hoofc hAtP rfl (by simpa [s9, s5] using hf2) hwl rfl
+                  (by simp [s9, s5]) h128 hFR (by simpa [s9, s5, hout2, s1', s1] using hout)
+                  hbound hnodup ⟨c0, rs0, hstack⟩
+              refine ⟨s', hreach1.trans (hreach1'.trans (r2.trans (r3.trans (r4.trans (r5.trans (r9.trans r10)))))),
+                hpc10, hst10, htl10, ?_⟩
+              rw [hout10]; simp [s9, s5, hout2, s1', s1]
+
+/-- the code in front of the main loop of a `for` leaves a value on the operand stack that iterates
+to the items the reference semantics walks: the iterable, or the list of the items that pass the filter -/
+theorem sim_for_iter {n : Nat} {ctx : Scope} {stack : List Nat} {σ : State} {target : Target} {iter : Expr}
+    {flt : Option Expr} {v : Val} {xs0 xs : List Val} {sized : Bool}
+    (hv : evalExpr n ctx σ.heap stack iter = .ok v) (hxs : iterate v = .ok xs0)
+    (hflt : (flt = none ∧ xs = xs0 ∧ sized = isSized v) ∨
+      (∃ c, flt = some c ∧ filterItems n ctx σ.heap stack target c xs0 = .ok xs ∧
+        ((xs.length : Int) ≤ i128Max) ∧ sized = true))
+    (hsi : simpleExpr iter = true) (hsc : ∀ c, flt = some c → simpleExpr c = true)
+    {C : List Instr} {base : Nat} {a : Aux} {s : VmState}
+    (hAt : At C base (relForIter target iter flt base a).1) (hoof : (relForIter target iter flt base a).2.oof = false)
+    (hpc : s.pc = base) (hrel : Rel σ stack s) :
+    ∃ w, Reach ctx C s { s with pc := base + (relForIter target iter flt base a).1.length, stack := w :: s.stack } ∧
+      iterate w = .ok xs ∧ isSized w = sized := by
+  rcases hflt with ⟨rfl, rfl, rfl⟩ | ⟨c, rfl, hfi, h128, rfl⟩
+  · exact ⟨v, relExpr_correct hv hsi hAt hoof hpc hrel.env, hxs, rfl⟩
+  · have hscc := hsc c rfl
+    simp only [relForIter] at hAt hoof ⊢
+    have ho1 : (relExpr iter (base + 1) a).2.oof = false := by
+      cases ha : (relExpr iter (base + 1) a).2.oof with
+      | false => rfl
+      | true => rw [relExpr_oof_mono c _ _ ha] at hoof; cases hoof
+    obtain ⟨P, hP⟩ : ∃ P, P = base + 1 + (relExpr iter (base + 1) a).1.length + 3 + (relTarget target).length +
+          (relExpr c (base + 1 + (relExpr iter (base + 1) a).1.length + 3 + (relTarget target).length)
+            (relExpr iter (base + 1) a).2).1.length := ⟨_, rfl⟩
+    rw [← hP] at hAt
+    -- LoadConst 0
+    let s0 : VmState := { s with pc := base + 1, stack := .int 0 :: s.stack }
+    have r0 : Reach ctx C s s0 :=
+      Reach.one (i := .loadConst (.int 0)) (by rw [hpc]; exact hAt.left.left.left.left.left.head)
+        (by simp [MJ.Vm.step, s0, hpc])
+    have r1 : Reach ctx C s0 { s0 with pc := base + 1 + (relExpr iter (base + 1) a).1.length, stack := v :: s0.stack } :=
+      relExpr_correct (s := s0) hv hsi (At.cast hAt.left.left.left.left.right (by simp)) ho1 rfl
+        (by simpa [s0] using hrel.env)
+    -- PushLoop 0
+    let l0 : LoopSt := { withLoopVar := false, len := if isSized v then some xs0.length else none,
+                         calls := 0, iterated := false, prev := none, cur := none, rest := xs0 }
+    let s2 : VmState := { s with pc := base + 1 + (relExpr iter (base + 1) a).1.length + 1, stack := .int 0 :: s.stack,
+                                 frames := { locals := [], loop := some l0 } :: s.frames }
+    have hAt3 := hAt.left.left.left.right
+    have r2 : Reach ctx C { s0 with pc := base + 1 + (relExpr iter (base + 1) a).1.length, stack := v :: s0.stack } s2 :=
+      Reach.one' (i := .pushLoop 0) _ hAt3.head (by simp; omega)
+        (by simp [MJ.Vm.step, hxs, Except.map, s2, l0, s0])
+    obtain ⟨c0, rs0, hstack⟩ := hrel.nonempty
+    have hAtP : At C P [.jumpIfFalse (P + 5), .swap, .loadConst (.int 1), .add, .jump (P + 6), .discardTop,
+        .jump (base + 1 + (relExpr iter (base + 1) a).1.length + 1), .popLoopFrame, .buildList none] :=
+      At.cast hAt.right (by rw [hP]; simp only [List.length_append, List.length_cons, List.length_nil]; omega)
+    obtain ⟨s', r3, hpc3, hst3, htl3, hout3⟩ :=
+      sim_filter_iters xs0 n ctx σ stack target c xs hfi hscc C
+        (base + 1 + (relExpr iter (base + 1) a).1.length + 1)
+        (base + 1 + (relExpr iter (base + 1) a).1.length + 3 + (relTarget target).length)
+        P (relExpr iter (base + 1) a).2 s2 l0 [] s.frames [] s.stack (by omega) hP
+        (by have := hAt3.tail.head
+            refine Eq.trans (congrArg (fun k => C[k]?) ?_) this
+            simp only [List.length_append, List.length_cons, List.length_nil]; omega)
+        (by have := hAt3.tail.tail.head
+            refine Eq.trans (congrArg (fun k => C[k]?) ?_) this
+            simp only [List.length_append, List.length_cons, List.length_nil]; omega)
+        (At.cast hAt.left.left.right (by simp only [List.length_append, List.length_cons, List.length_nil]; omega))
+        (At.cast hAt.left.right (by simp only [List.length_append, List.length_cons, List.length_nil]; omega))
+        hoof
+        (At.left (L2 := [Instr.popLoopFrame, Instr.buildList none]) (by simpa using hAtP))
+        rfl rfl rfl rfl (by simp [s2]) (by simpa using h128) hrel.frames hrel.out hrel.bound hrel.nodup ⟨c0, rs0, hstack⟩
+    -- PopLoopFrame, BuildList
+    let s4 : VmState := { s' with pc := P + 8, frames := s.frames }
+    have r4 : Reach ctx C s' s4 :=
+      Reach.one' (i := .popLoopFrame) _ hAtP.tail.tail.tail.tail.tail.tail.tail.head hpc3
+        (by simp [MJ.Vm.step, s4, hpc3, htl3])
+    let s5 : VmState := { s with pc := P + 9, stack := .list xs :: s.stack }
+    have r5 : Reach ctx C s4 s5 :=
+      Reach.one' (i := .buildList none) _ hAtP.tail.tail.tail.tail.tail.tail.tail.tail.head rfl
+        (by
+          have hst4 : s4.stack = .int xs.length :: (xs.reverse ++ s.stack) := by simpa [s4] using hst3
+          simp only [MJ.Vm.step, hst4, Int.toNat_natCast, popN_append]
+          simp [s4, s5, hout3, s2])
+    refine ⟨.list xs, Reach.cast (r0.trans (r1.trans (r2.trans (r3.trans (r4.trans r5))))) rfl ?_, by simp [iterate],
+      by simp [isSized]⟩
+    simp only [s5, hP, List.length_append, List.length_cons, List.length_nil]
+    congr 1; omega
+
+theorem sim_stmt_step {n} (ihB : SimBlock n) (ihW : SimBinds n) (ihI : SimIters n) (ihF : SimFilters n) :
+    SimStmt (n + 1) := by
   intro st ctx stack σ σ' fl hev hs C base a s hAt hoof hpc hrel
   cases st with
   | text t =>
@@ -410,21 +814,21 @@ theorem sim_stmt_step {n} (ihB : SimBlock n) (ihW : SimBinds n) (ihI : SimIters 
         r1.trans (Reach.one' (i := .emit) _ hAt.right.head rfl (by simp [MJ.Vm.step])),
         by simp [Nat.add_assoc], rfl, hr.1, hr.2, rfl, rfl⟩
   | set target e =>
-    cases target with
-    | tuple ts => simp [simpleStmt] at hs
-    | var x =>
-      have hse : simpleExpr e = true := by simpa [simpleStmt] using hs
-      obtain ⟨cell, rs, hstack⟩ := hrel.nonempty
-      subst hstack
-      simp only [exec, bind, Except.bind] at hev
+    have hse : simpleExpr e = true := by simpa [simpleStmt] using hs
+    obtain ⟨cell, rs, hstack⟩ := hrel.nonempty
+    subst hstack
+    simp only [exec, bind, Except.bind] at hev
+    split at hev
+    · simp at hev
+    · rename_i v hv
       split at hev
       · simp at hev
-      · rename_i v hv
-        simp [bindTarget, topCell, heapSetAll] at hev
+      · rename_i bs hbs
+        simp [topCell] at hev
         obtain ⟨rfl, rfl⟩ := hev
         simp only [relStmt] at hAt hoof ⊢
         refine ⟨by simp, ?_⟩
-        have := sim_assign hv hse hAt hoof hpc hrel
+        have := sim_assign hv hbs hse hAt hoof hpc hrel
         simpa [Nat.add_assoc] using this
   | ifS c t f =>
     simp only [exec, bind, Except.bind] at hev
@@ -539,108 +943,365 @@ theorem sim_stmt_step {n} (ihB : SimBlock n) (ihW : SimBinds n) (ihI : SimIters 
         · simp [s4, hfr3]
         · simp [s4, hfr3]
   | forS target iter flt body els =>
-    cases target with
-    | tuple ts => simp [simpleStmt] at hs
-    | var x =>
+    have hs' : (simpleExpr iter = true ∧ simpleBlock body = true) ∧ simpleBlock els = true := by
       cases flt with
-      | some c => simp [simpleStmt] at hs
-      | none =>
-        cases els with
-        | cons e0 es => simp [simpleStmt] at hs
-        | nil =>
-          have hs' : (¬ x = "loop" ∧ simpleExpr iter = true) ∧ simpleBlock body = true := by
-            simpa [simpleStmt] using hs
-          simp only [exec, bind, Except.bind] at hev
-          split at hev
-          · simp at hev
-          · rename_i v hv
+      | none => simpa [simpleStmt] using hs
+      | some c =>
+        have : ((simpleExpr iter = true ∧ simpleExpr c = true) ∧ simpleBlock body = true) ∧ simpleBlock els = true := by
+          simpa [simpleStmt] using hs
+        exact ⟨⟨this.1.1.1, this.1.2⟩, this.2⟩
+    have hsc : ∀ c, flt = some c → simpleExpr c = true := by
+      intro c hc; subst hc
+      have : ((simpleExpr iter = true ∧ simpleExpr c = true) ∧ simpleBlock body = true) ∧ simpleBlock els = true := by
+        simpa [simpleStmt] using hs
+      exact this.1.1.2
+    simp only [exec, bind, Except.bind] at hev
+    split at hev
+    · simp at hev
+    · rename_i v hv
+      split at hev
+      · simp at hev
+      · rename_i xs0 hxs
+        have hphase : ∃ xs sized, ((flt = none ∧ xs = xs0 ∧ sized = isSized v) ∨
+              (∃ c, flt = some c ∧ filterItems n ctx σ.heap stack target c xs0 = .ok xs ∧
+                ((xs.length : Int) ≤ i128Max) ∧ sized = true)) ∧
+            ∃ σi, execIters n ctx stack σ target body (xs.zip (loopInfos sized xs)) = .ok σi ∧
+              ((xs = [] ∧ execBlock n ctx stack σ els = .ok (σ', fl)) ∨ (xs ≠ [] ∧ σ' = σi ∧ fl = .normal)) := by
+          cases flt with
+          | none =>
+            simp only at hev
+            refine ⟨xs0, isSized v, Or.inl ⟨rfl, rfl, rfl⟩, ?_⟩
+            cases xs0 with
+            | nil =>
+              cases n with
+              | zero => simp [execBlock] at hev
+              | succ m => exact ⟨σ, by simp [execIters, loopInfos, loopInfosFrom], Or.inl ⟨rfl, hev⟩⟩
+            | cons y ys =>
+              simp only at hev
+              split at hev
+              · simp at hev
+              · rename_i σi hi
+                simp at hev
+                exact ⟨σi, hi, Or.inr ⟨by simp, hev.1.symm, hev.2.symm⟩⟩
+          | some c =>
+            simp only at hev
             split at hev
             · simp at hev
-            · rename_i xs hxs
-              -- the reference semantics in terms of `execIters`
-              have hiters : ∃ σi, execIters n ctx stack σ (.var x) body (xs.zip (loopInfos (isSized v) xs)) = .ok σi ∧
-                  σ' = σi ∧ fl = .normal := by
-                cases xs with
+            · rename_i ks hks
+              split at hev
+              · rename_i hle
+                refine ⟨ks, true, Or.inr ⟨c, rfl, hks, hle, rfl⟩, ?_⟩
+                cases ks with
                 | nil =>
-                  obtain ⟨rfl, rfl⟩ := execBlock_nil hev
                   cases n with
                   | zero => simp [execBlock] at hev
-                  | succ m => exact ⟨σ', by simp [execIters, loopInfos, loopInfosFrom], rfl, rfl⟩
+                  | succ m => exact ⟨σ, by simp [execIters, loopInfos, loopInfosFrom], Or.inl ⟨rfl, hev⟩⟩
                 | cons y ys =>
                   simp only at hev
                   split at hev
                   · simp at hev
                   · rename_i σi hi
                     simp at hev
-                    exact ⟨σi, hi, hev.1.symm, hev.2.symm⟩
-              obtain ⟨σi, hit, rfl, rfl⟩ := hiters
-              simp only [relStmt] at hAt hoof ⊢
-              have ho1 := oof_false_of_relBlock hoof
-              have r1 := relExpr_correct hv hs'.1.2 hAt.left.left.left ho1 hpc hrel.env
-              -- PushLoop
-              let l0 : LoopSt := { withLoopVar := true, len := if isSized v then some xs.length else none,
-                                   calls := 0, iterated := false, prev := none, cur := none, rest := xs }
-              let s2 : VmState := { s with pc := base + (relExpr iter base a).1.length + 1,
-                                           frames := { locals := [], loop := some l0 } :: s.frames }
-              have hreach2 : Reach ctx C { s with pc := base + (relExpr iter base a).1.length, stack := v :: s.stack } s2 :=
-                Reach.one' (i := .pushLoop 1) _ (hAt.left.left.right.head) rfl
-                  (by simp [MJ.Vm.step, hxs, Except.map, s2, l0])
-              have e3 : base + (relExpr iter base a).1.length + 1 + 2 = base + (relExpr iter base a).1.length + 3 := by omega
-              obtain ⟨c0, rs0, hstack⟩ := hrel.nonempty
-              obtain ⟨s5, r5, hpc5, hst5, htl5, hout5, houtt5⟩ :=
-                ihI ctx stack σ σ' x body xs (if isSized v then some xs.length else none) 0 none
-                  (by simpa [loopInfos] using hit) hs'.1.1 hs'.2 C
-                  (base + (relExpr iter base a).1.length + 1)
-                  (base + (relExpr iter base a).1.length + 3 +
-                    (relBlock body (base + (relExpr iter base a).1.length + 3) (relExpr iter base a).2).1.length + 1)
-                  (relExpr iter base a).2 s2 l0 [] s.frames
-                  (by have := hAt.left.left.right.tail.head; simpa [Nat.add_assoc] using this)
-                  (by have := hAt.left.left.right.tail.tail.head; simpa [Nat.add_assoc] using this)
-                  (by rw [e3]; exact At.cast hAt.left.right (by simp [Nat.add_assoc]))
-                  (by rw [e3]; exact hoof)
-                  (by rw [e3]; have := hAt.right.head
-                      refine Eq.trans (congrArg (fun k => C[k]?) ?_) this
-                      simp only [List.length_append, List.length_cons, List.length_nil]; omega)
-                  rfl rfl rfl rfl rfl rfl rfl hrel.frames hrel.out hrel.bound hrel.nodup ⟨c0, rs0, hstack⟩
-              -- PopLoopFrame
-              have hheap : σ'.heap = σ.heap := execIters_heap hit
-              let s6 : VmState := { s5 with pc := s5.pc + 1, frames := s5.frames.tail }
-              have hreach6 : Reach ctx C s5 s6 :=
-                Reach.one' (i := .popLoopFrame) _ hAt.right.tail.head
-                  (by simp only [hpc5, List.length_append, List.length_cons, List.length_nil]; omega)
-                  (by simp [MJ.Vm.step, s6])
-              refine ⟨by simp, s6, r1.trans (hreach2.trans (r5.trans hreach6)), ?_, ?_, ?_, ?_, ?_, ?_⟩
-              · simp only [s6, hpc5, List.length_append, List.length_cons, List.length_nil]; omega
-              · simp [s6, hst5, s2]
-              · refine ⟨?_, by simpa [s6] using hout5, ?_, hrel.nodup, hrel.nonempty⟩
-                · simp only [s6, htl5, hheap]; exact hrel.frames
-                · simp only [hheap]; exact hrel.bound
-              · simp [s6, houtt5, s2]
-              · simp [s6, htl5]
-              · simp [s6, htl5]
-  | setBlock _ _ _ => simp [simpleStmt] at hs
-  | filterBlock _ _ => simp [simpleStmt] at hs
+                    exact ⟨σi, hi, Or.inr ⟨by simp, hev.1.symm, hev.2.symm⟩⟩
+              · simp at hev
+        clear hev
+        obtain ⟨xs, sized, hflt, σi, hit, hcase⟩ := hphase
+        -- common prefix of the code: iterable, PushLoop, Iterate, target, body, Jump
+        have hcode : ∃ (rest : List Instr) (endPc : Nat) (a2 : Aux),
+            (relStmt (.forS target iter flt body els) base a).1 =
+              (relForIter target iter flt base a).1 ++ [.pushLoop 1, .iterate endPc] ++ relTarget target ++
+                (relBlock body (base + (relForIter target iter flt base a).1.length + 2 + (relTarget target).length) (relForIter target iter flt base a).2).1 ++
+                [.jump (base + (relForIter target iter flt base a).1.length + 1)] ++ rest ∧
+            endPc = base + (relForIter target iter flt base a).1.length + 2 + (relTarget target).length +
+              (relBlock body (base + (relForIter target iter flt base a).1.length + 2 + (relTarget target).length) (relForIter target iter flt base a).2).1.length + 1 ∧
+            (relBlock body (base + (relForIter target iter flt base a).1.length + 2 + (relTarget target).length) (relForIter target iter flt base a).2).2.oof = false := by
+          cases els with
+          | nil => exact ⟨[.popLoopFrame], _, (relForIter target iter flt base a).2, by simp [relStmt], rfl, by simpa [relStmt] using hoof⟩
+          | cons e0 es =>
+            refine ⟨[.pushDidNotIterate, .popLoopFrame,
+                .jumpIfFalse (base + (relForIter target iter flt base a).1.length + 2 + (relTarget target).length +
+                  (relBlock body (base + (relForIter target iter flt base a).1.length + 2 + (relTarget target).length) (relForIter target iter flt base a).2).1.length + 4 +
+                  (relBlock (e0 :: es) (base + (relForIter target iter flt base a).1.length + 2 + (relTarget target).length +
+                    (relBlock body (base + (relForIter target iter flt base a).1.length + 2 + (relTarget target).length) (relForIter target iter flt base a).2).1.length + 4)
+                    (relBlock body (base + (relForIter target iter flt base a).1.length + 2 + (relTarget target).length) (relForIter target iter flt base a).2).2).1.length)] ++
+                (relBlock (e0 :: es) (base + (relForIter target iter flt base a).1.length + 2 + (relTarget target).length +
+                    (relBlock body (base + (relForIter target iter flt base a).1.length + 2 + (relTarget target).length) (relForIter target iter flt base a).2).1.length + 4)
+                    (relBlock body (base + (relForIter target iter flt base a).1.length + 2 + (relTarget target).length) (relForIter target iter flt base a).2).2).1,
+              _, (relForIter target iter flt base a).2, by simp only [relStmt]; simp, rfl, ?_⟩
+            have : (relStmt (.forS target iter flt body (e0 :: es)) base a).2.oof = false := hoof
+            simp only [relStmt] at this
+            exact oof_false_of_relBlock this
+        obtain ⟨rest, endPc, _, hcodeEq, hend, hoofb⟩ := hcode
+        have hAt' := hAt
+        rw [hcodeEq] at hAt'
+        have ho1 := oof_false_of_relBlock hoofb
+        obtain ⟨w, r1, hwit, hwsz⟩ := sim_for_iter hv hxs hflt hs'.1.1 hsc hAt'.left.left.left.left.left ho1 hpc hrel
+        let l0 : LoopSt := { withLoopVar := true, len := if sized then some xs.length else none,
+                             calls := 0, iterated := false, prev := none, cur := none, rest := xs }
+        let s2 : VmState := { s with pc := base + (relForIter target iter flt base a).1.length + 1,
+                                     frames := { locals := [], loop := some l0 } :: s.frames }
+        have hreach2 : Reach ctx C { s with pc := base + (relForIter target iter flt base a).1.length, stack := w :: s.stack } s2 :=
+          Reach.one' (i := .pushLoop 1) _ hAt'.left.left.left.left.right.head rfl
+            (by simp [MJ.Vm.step, hwit, hwsz, Except.map, s2, l0])
+        obtain ⟨c0, rs0, hstack⟩ := hrel.nonempty
+        have e1 : base + (relForIter target iter flt base a).1.length + 1 + 1 = base + (relForIter target iter flt base a).1.length + 2 := by omega
+        obtain ⟨s5, r5, hpc5, hst5, htl5, hout5, houtt5, lf, locf, hlf, hitd⟩ :=
+          ihI ctx stack σ σi target body xs (if sized then some xs.length else none) 0 none
+            (by simpa [loopInfos] using hit) hs'.1.2 C
+            (base + (relForIter target iter flt base a).1.length + 1) endPc (relForIter target iter flt base a).2 s2 l0 [] s.frames
+            (by have := hAt'.left.left.left.left.right.tail.head; simpa [Nat.add_assoc] using this)
+            (by rw [e1]; exact At.cast hAt'.left.left.left.right (by simp [Nat.add_assoc]))
+            (by rw [e1]; exact At.cast hAt'.left.left.right (by simp only [List.length_append, List.length_cons, List.length_nil]; omega))
+            (by rw [e1]; exact hoofb)
+            (by rw [e1]; have := hAt'.left.right.head
+                refine Eq.trans (congrArg (fun k => C[k]?) ?_) this
+                simp only [List.length_append, List.length_cons, List.length_nil]; omega)
+            rfl rfl rfl rfl rfl rfl rfl hrel.frames hrel.out hrel.bound hrel.nodup ⟨c0, rs0, hstack⟩
+        have hheap : σi.heap = σ.heap := execIters_heap hit
+        have hfr5 : s5.frames = { locals := locf, loop := some lf } :: s.frames := by
+          cases hf : s5.frames with
+          | nil => rw [hf] at hlf; simp at hlf
+          | cons f5 fs5 => rw [hf] at hlf htl5; simp at hlf htl5; rw [hlf, htl5]
+        cases els with
+        | nil =>
+          -- no else branch: PopLoopFrame
+          have hσ : σ' = σi ∧ fl = .normal := by
+            rcases hcase with ⟨hx, hb⟩ | ⟨_, h1, h2⟩
+            · subst hx
+              obtain ⟨rfl, rfl⟩ := execBlock_nil hb
+              cases n with
+              | zero => simp [execBlock] at hb
+              | succ m => simp [execIters, loopInfos, loopInfosFrom] at hit; exact ⟨hit, rfl⟩
+            · exact ⟨h1, h2⟩
+          obtain ⟨rfl, rfl⟩ := hσ
+          have hrest : rest = [.popLoopFrame] := by
+            have := hcodeEq; simp only [relStmt] at this
+            simp at this
+            exact this.2.symm
+          subst hrest
+          let s6 : VmState := { s5 with pc := s5.pc + 1, frames := s5.frames.tail }
+          have hreach6 : Reach ctx C s5 s6 :=
+            Reach.one' (i := .popLoopFrame) _ hAt'.right.head
+              (by simp only [hpc5, hend, List.length_append, List.length_cons, List.length_nil]; omega)
+              (by simp [MJ.Vm.step, s6])
+          refine ⟨by simp, s6, r1.trans (hreach2.trans (r5.trans hreach6)), ?_, ?_, ?_, ?_, ?_, ?_⟩
+          · rw [hcodeEq]; simp only [s6, hpc5, hend, List.length_append, List.length_cons, List.length_nil]; omega
+          · simp [s6, hst5, s2]
+          · refine ⟨?_, by simpa [s6] using hout5, ?_, hrel.nodup, hrel.nonempty⟩
+            · simp only [s6, htl5, hheap]; exact hrel.frames
+            · simp only [hheap]; exact hrel.bound
+          · simp [s6, houtt5, s2]
+          · simp [s6, htl5]
+          · simp [s6, htl5]
+        | cons e0 es =>
+          -- the shape of the code behind the loop
+          have hrestEq := hcodeEq
+          simp only [relStmt] at hrestEq
+          simp at hrestEq
+          obtain ⟨_, hrest⟩ := hrestEq
+          have hpre : base + ((relForIter target iter flt base a).1 ++ [Instr.pushLoop 1, Instr.iterate endPc] ++ relTarget target ++
+              (relBlock body (base + (relForIter target iter flt base a).1.length + 2 + (relTarget target).length) (relForIter target iter flt base a).2).1 ++
+              [Instr.jump (base + (relForIter target iter flt base a).1.length + 1)]).length = endPc := by
+            simp only [hend, List.length_append, List.length_cons, List.length_nil]; omega
+          have hAtR : At C endPc (Instr.pushDidNotIterate :: Instr.popLoopFrame ::
+              Instr.jumpIfFalse (endPc + 3 + (relBlock (e0 :: es) (endPc + 3) (relBlock body (base + (relForIter target iter flt base a).1.length + 2 + (relTarget target).length) (relForIter target iter flt base a).2).2).1.length) ::
+              (relBlock (e0 :: es) (endPc + 3) (relBlock body (base + (relForIter target iter flt base a).1.length + 2 + (relTarget target).length) (relForIter target iter flt base a).2).2).1) := by
+            have h := At.cast hAt'.right hpre
+            rw [← hrest] at h
+            have e4 : base + (relForIter target iter flt base a).1.length + 2 + (relTarget target).length +
+                (relBlock body (base + (relForIter target iter flt base a).1.length + 2 + (relTarget target).length) (relForIter target iter flt base a).2).1.length + 4 = endPc + 3 := by
+              rw [hend]
+            rw [e4] at h
+            exact h
+          have hrestLen : rest.length = 3 + (relBlock (e0 :: es) (endPc + 3) (relBlock body (base + (relForIter target iter flt base a).1.length + 2 + (relTarget target).length) (relForIter target iter flt base a).2).2).1.length := by
+            have e4 : base + (relForIter target iter flt base a).1.length + 2 + (relTarget target).length +
+                (relBlock body (base + (relForIter target iter flt base a).1.length + 2 + (relTarget target).length) (relForIter target iter flt base a).2).1.length + 4 = endPc + 3 := by
+              rw [hend]
+            rw [← hrest, e4]; simp; omega
+          have hoofE : (relBlock (e0 :: es) (endPc + 3) (relBlock body (base + (relForIter target iter flt base a).1.length + 2 + (relTarget target).length) (relForIter target iter flt base a).2).2).2.oof = false := by
+            have : (relStmt (.forS target iter flt body (e0 :: es)) base a).2.oof = false := hoof
+            simp only [relStmt] at this
+            rw [hend]; simpa [Nat.add_assoc] using this
+          -- PushDidNotIterate, PopLoopFrame
+          let s6 : VmState := { s5 with pc := endPc + 1, stack := .bool (!lf.iterated) :: s5.stack }
+          have hreach6 : Reach ctx C s5 s6 :=
+            Reach.one' (i := .pushDidNotIterate) _ hAtR.head hpc5
+              (by simp [MJ.Vm.step, hfr5, currentLoop, s6, hpc5])
+          let s7 : VmState := { s6 with pc := endPc + 2, frames := s.frames }
+          have hreach7 : Reach ctx C s6 s7 :=
+            Reach.one' (i := .popLoopFrame) _ hAtR.tail.head (by simp [s6])
+              (by simp [MJ.Vm.step, s7, s6, hfr5])
+          have hj := hAtR.tail.tail.head
+          have hst7 : s7.stack = .bool (!lf.iterated) :: s.stack := by simp [s7, s6, hst5, s2]
+          rcases hcase with ⟨hx, hb⟩ | ⟨hx, h1, h2⟩
+          · -- empty sequence: the else branch runs
+            subst hx
+            have hσi : σi = σ := by
+              cases n with
+              | zero => simp [execBlock] at hb
+              | succ m => simp [execIters, loopInfos, loopInfosFrom] at hit; exact hit.symm
+            subst hσi
+            have hitf : lf.iterated = false := by simpa [l0] using hitd
+            let s8 : VmState := { s7 with pc := endPc + 3, stack := s.stack }
+            have hreach8 : Reach ctx C s7 s8 :=
+              Reach.one' (i := .jumpIfFalse _) _ hj (by simp [s7]) (by simp only [MJ.Vm.step, hst7]; simp [hitf, truthy, s8, s7])
+            have hrel8 : Rel σi stack s8 :=
+              ⟨by simpa [s8, s7] using hrel.frames, by simpa [s8, s7, s6] using hout5, hrel.bound, hrel.nodup, hrel.nonempty⟩
+            obtain ⟨hfl, s9, r9, hpc9, hst9, hrel9, hout9, htl9, hhd9⟩ :=
+              ihB (e0 :: es) ctx stack σi σ' fl hb hs'.2 C (endPc + 3) _ s8
+                (At.cast hAtR.tail.tail.tail (by omega)) hoofE rfl hrel8
+            refine ⟨hfl, s9, r1.trans (hreach2.trans (r5.trans (hreach6.trans (hreach7.trans (hreach8.trans r9))))), ?_, ?_, hrel9, ?_, ?_, ?_⟩
+            · rw [hpc9, hcodeEq, List.length_append, hrestLen]; omega
+            · simp [hst9, s8]
+            · rw [hout9]; simp [s8, s7, s6, houtt5, s2]
+            · rw [htl9]
+            · rw [hhd9]
+          · -- at least one iteration: jump over the else branch
+            subst h1; subst h2
+            have hitt : lf.iterated = true := by
+              cases xs with
+              | nil => exact absurd rfl hx
+              | cons y ys => simpa [l0] using hitd
+            let s8 : VmState := { s7 with pc := endPc + 3 + (relBlock (e0 :: es) (endPc + 3) (relBlock body (base + (relForIter target iter flt base a).1.length + 2 + (relTarget target).length) (relForIter target iter flt base a).2).2).1.length, stack := s.stack }
+            have hreach8 : Reach ctx C s7 s8 :=
+              Reach.one' (i := .jumpIfFalse _) _ hj (by simp [s7])
+                (by simp only [MJ.Vm.step, hst7]; simp [hitt, truthy, s8, s7])
+            refine ⟨by simp, s8, r1.trans (hreach2.trans (r5.trans (hreach6.trans (hreach7.trans hreach8)))), ?_, ?_, ?_, ?_, ?_, ?_⟩
+            · rw [hcodeEq, List.length_append, hrestLen]; simp only [s8]; omega
+            · simp [s8]
+            · refine ⟨?_, by simpa [s8, s7, s6] using hout5, ?_, hrel.nodup, hrel.nonempty⟩
+              · simp only [s8, s7, hheap]; exact hrel.frames
+              · simp only [hheap]; exact hrel.bound
+            · simp [s8, s7, s6, houtt5, s2]
+            · simp [s8, s7]
+            · simp [s8, s7]
+  | setBlock x filters body =>
+    have hs' : simpleFilters filters = true ∧ simpleBlock body = true := by simpa [simpleStmt] using hs
+    simp only [exec, bind, Except.bind] at hev
+    split at hev
+    · simp at hev
+    · rename_i r hr
+      obtain ⟨σ1, fl1⟩ := r
+      simp only [relStmt] at hAt hoof ⊢
+      have hoB := oof_false_of_relFilters hoof
+      -- BeginCapture
+      let s1 : VmState := { s with pc := base + 1, outs := "" :: s.outs }
+      have hreach1 : Reach ctx C s s1 :=
+        Reach.one (i := .beginCapture) (by rw [hpc]; exact hAt.left.left.left.left.head) (by simp [MJ.Vm.step, s1, hpc])
+      have hrel1 : Rel { σ with out := "" } stack s1 :=
+        ⟨hrel.frames, ⟨s.outs, rfl⟩, hrel.bound, hrel.nodup, hrel.nonempty⟩
+      obtain ⟨hfl1, s2, r2, hpc2, hst2, hrel2, hout2, htl2, hhd2⟩ :=
+        ihB body ctx stack _ σ1 fl1 hr hs'.2 C (base + 1) a s1
+          (At.cast hAt.left.left.left.right (by simp)) hoB rfl hrel1
+      subst hfl1
+      simp only at hev
+      obtain ⟨r2out, hr2⟩ := hrel2.out
+      have hr2' : r2out = s.outs := by have := hout2; rw [hr2] at this; simpa [s1] using this
+      subst hr2'
+      -- EndCapture
+      let pB : Nat := base + 1 + (relBlock body (base + 1) a).1.length + 1
+      let pF : Nat := pB + (relFilters filters pB (relBlock body (base + 1) a).2).1.length
+      let s3 : VmState := { s2 with pc := pB, stack := .str σ1.out :: s.stack, outs := s.outs }
+      have hreach3 : Reach ctx C s2 s3 :=
+        Reach.one' (i := .endCapture) _ hAt.left.left.right.head
+          (by simp only [hpc2, List.length_append, List.length_cons, List.length_nil]; omega)
+          (by simp [MJ.Vm.step, hr2, s3, pB, hpc2, hst2, s1])
+      split at hev
+      · simp at hev
+      · rename_i v hv
+        have r4 := ihF filters ctx σ1.heap stack (.str σ1.out) v hv hs'.1 C pB (relBlock body (base + 1) a).2 s3 s.stack
+          (At.cast hAt.left.right (by simp only [pB, List.length_append, List.length_cons, List.length_nil]; omega))
+          hoof rfl rfl (by simpa [s3] using hrel2.env)
+        obtain ⟨cell, rs, hstack⟩ := hrel.nonempty
+        subst hstack
+        simp [topCell] at hev
+        obtain ⟨rfl, rfl⟩ := hev
+        have hrel4 : Rel { heap := σ1.heap, out := σ.out } (cell :: rs) { s3 with pc := pF, stack := v :: s.stack } :=
+          ⟨by simpa [s3] using hrel2.frames, by simpa [s3] using hrel.out, hrel2.bound, hrel.nodup, ⟨cell, rs, rfl⟩⟩
+        let s5 : VmState := { s3 with pc := pF + 1, stack := s.stack, frames := storeLocal x v s2.frames }
+        have hreach5 : Reach ctx C { s3 with pc := pF, stack := v :: s.stack } s5 :=
+          Reach.one' (i := .storeLocal x) _ hAt.right.head
+            (by simp only [pF, pB, List.length_append, List.length_cons, List.length_nil]; omega)
+            (by simp [MJ.Vm.step, s5, s3])
+        refine ⟨by simp, s5, hreach1.trans (r2.trans (hreach3.trans (r4.trans hreach5))), ?_, rfl, ?_, ?_, ?_, ?_⟩
+        · simp only [s5, pF, pB, List.length_append, List.length_cons, List.length_nil]; omega
+        · exact hrel4.store x v s5 rfl rfl
+        · simp [s5, s3]
+        · simp only [s5, storeLocal_tail, htl2]; rfl
+        · simp only [s5, storeLocal_headLoop, hhd2]; rfl
+  | filterBlock filters body =>
+    have hs' : simpleFilters filters = true ∧ simpleBlock body = true := by simpa [simpleStmt] using hs
+    simp only [exec, bind, Except.bind] at hev
+    split at hev
+    · simp at hev
+    · rename_i r hr
+      obtain ⟨σ1, fl1⟩ := r
+      simp only [relStmt] at hAt hoof ⊢
+      have hoB := oof_false_of_relFilters hoof
+      -- BeginCapture
+      let s1 : VmState := { s with pc := base + 1, outs := "" :: s.outs }
+      have hreach1 : Reach ctx C s s1 :=
+        Reach.one (i := .beginCapture) (by rw [hpc]; exact hAt.left.left.left.left.head) (by simp [MJ.Vm.step, s1, hpc])
+      have hrel1 : Rel { σ with out := "" } stack s1 :=
+        ⟨hrel.frames, ⟨s.outs, rfl⟩, hrel.bound, hrel.nodup, hrel.nonempty⟩
+      obtain ⟨hfl1, s2, r2, hpc2, hst2, hrel2, hout2, htl2, hhd2⟩ :=
+        ihB body ctx stack _ σ1 fl1 hr hs'.2 C (base + 1) a s1
+          (At.cast hAt.left.left.left.right (by simp)) hoB rfl hrel1
+      subst hfl1
+      simp only at hev
+      obtain ⟨r2out, hr2⟩ := hrel2.out
+      have hr2' : r2out = s.outs := by have := hout2; rw [hr2] at this; simpa [s1] using this
+      subst hr2'
+      -- EndCapture
+      let pB : Nat := base + 1 + (relBlock body (base + 1) a).1.length + 1
+      let pF : Nat := pB + (relFilters filters pB (relBlock body (base + 1) a).2).1.length
+      let s3 : VmState := { s2 with pc := pB, stack := .str σ1.out :: s.stack, outs := s.outs }
+      have hreach3 : Reach ctx C s2 s3 :=
+        Reach.one' (i := .endCapture) _ hAt.left.left.right.head
+          (by simp only [hpc2, List.length_append, List.length_cons, List.length_nil]; omega)
+          (by simp [MJ.Vm.step, hr2, s3, pB, hpc2, hst2, s1])
+      split at hev
+      · simp at hev
+      · rename_i v hv
+        have r4 := ihF filters ctx σ1.heap stack (.str σ1.out) v hv hs'.1 C pB (relBlock body (base + 1) a).2 s3 s.stack
+          (At.cast hAt.left.right (by simp only [pB, List.length_append, List.length_cons, List.length_nil]; omega))
+          hoof rfl rfl (by simpa [s3] using hrel2.env)
+        simp at hev
+        obtain ⟨rfl, rfl⟩ := hev
+        let s5 : VmState := { s3 with pc := pF + 1, stack := s.stack, outs := MJ.Vm.appendOut (render v) s.outs }
+        have hreach5 : Reach ctx C { s3 with pc := pF, stack := v :: s.stack } s5 :=
+          Reach.one' (i := .emit) _ hAt.right.head
+            (by simp only [pF, pB, List.length_append, List.length_cons, List.length_nil]; omega)
+            (by simp [MJ.Vm.step, s5, s3])
+        obtain ⟨rest0, hr0⟩ := hrel.out
+        refine ⟨by simp, s5, hreach1.trans (r2.trans (hreach3.trans (r4.trans hreach5))), ?_, rfl, ?_, ?_, ?_, ?_⟩
+        · simp only [s5, pF, pB, List.length_append, List.length_cons, List.length_nil]; omega
+        · exact ⟨by simpa [s5, s3] using hrel2.frames, ⟨rest0, by simp [s5, hr0, MJ.Vm.appendOut]⟩, hrel2.bound, hrel.nodup, hrel.nonempty⟩
+        · simp [s5, hr0, MJ.Vm.appendOut]
+        · simp only [s5, s3, htl2]; rfl
+        · simp only [s5, s3, hhd2]; rfl
   | macroS _ _ _ _ _ => simp [simpleStmt] at hs
   | callBlock _ _ _ _ _ _ => simp [simpleStmt] at hs
   | breakS => simp [simpleStmt] at hs
   | continueS => simp [simpleStmt] at hs
 
 
-theorem sim_stmt_all : ∀ n, SimStmt n ∧ SimBlock n ∧ SimBinds n ∧ SimIters n := by
+theorem sim_stmt_all : ∀ n, SimStmt n ∧ SimBlock n ∧ SimBinds n ∧ SimIters n ∧ SimFilters n := by
   intro n
   induction n with
   | zero =>
     refine ⟨fun st ctx stack σ σ' fl h => by simp [exec] at h,
       fun ss ctx stack σ σ' fl h => by simp [execBlock] at h,
       fun binds ctx stack heap heap' out h => by simp [bindWith] at h,
-      fun ctx stack σ σ' x body xs len idx prev h => by simp [execIters] at h⟩
+      fun ctx stack σ σ' x body xs len idx prev h => by simp [execIters] at h,
+      fun fs ctx heap stack v v' h => by simp [applyFilters] at h⟩
   | succ n ih =>
-    obtain ⟨hS, hB, hW, hI⟩ := ih
-    exact ⟨sim_stmt_step hB hW hI, sim_block_step hS hB, sim_binds_step hW, sim_iters_step hB hI⟩
+    obtain ⟨hS, hB, hW, hI, hF⟩ := ih
+    exact ⟨sim_stmt_step hB hW hI hF, sim_block_step hS hB, sim_binds_step hW, sim_iters_step hB hI, sim_filters_step hF⟩
 
-/-- the fragment of stage 3: text, `{{ e }}`, `set x = e`, `if`/`elif`/`else`, `with x = e, …`,
-`for x in e` (no filter / else / loop controls) over expressions without chained comparisons,
-calls and keyword arguments -/
+/-- the fragment of stage 3: text, `{{ e }}`, `set` (incl. unpacking), set-blocks and filter-blocks
+with filter chains, `if`/`elif`/`else`, `with`, `for … if … else` with unpacking targets and loop
+filter (no `break`/`continue`) over every expression form except calls and keyword arguments -/
 def Fragment (prog : List Stmt) : Prop := simpleBlock prog = true
 
 /-- **`vm_refines_eval_partial`**: for every template of the fragment and every context, if the
